@@ -863,15 +863,26 @@ class SymBytes(SymSeq):
 
     def decode(self, encoding="utf-8", errors="strict"):
         enc = encoding.lower().replace("_", "-")
-        if enc in ("ascii", "us-ascii", "utf-8", "utf8"):
+        if enc in ("utf-8", "utf8"):
+            return mkseq("str", utf8_decode_items(self.items, errors))
+        if enc in ("ascii", "us-ascii"):
             eng = core.cur()
+            out = []
             for i, it in enumerate(self.items):
                 ok = (it < 128) if isinstance(it, int) else eng.branch(it < 128)
-                if not ok:
-                    if enc in ("ascii", "us-ascii") and errors == "strict":
-                        raise UnicodeDecodeError("ascii", b"?", i, i + 1, "ordinal not in range(128)")
-                    eng.unsupported("decode(%s) of non-ASCII symbolic bytes" % encoding)
-            return mkseq("str", self.items)
+                if ok:
+                    out.append(it)
+                elif errors == "strict":
+                    raise UnicodeDecodeError("ascii", b"?", i, i + 1, "ordinal not in range(128)")
+                elif errors == "surrogateescape":
+                    out.append(it + 0xDC00)
+                elif errors == "replace":
+                    out.append(0xFFFD)
+                elif errors == "ignore":
+                    pass
+                else:
+                    eng.unsupported("decode(ascii, errors=%r)" % (errors,))
+            return mkseq("str", out)
         if enc in ("latin-1", "latin1", "iso-8859-1"):
             return mkseq("str", self.items)
         core.cur().unsupported("decode(%s)" % encoding)
@@ -924,15 +935,24 @@ class SymStr(SymSeq):
 
     def encode(self, encoding="utf-8", errors="strict"):
         enc = encoding.lower().replace("_", "-")
-        if enc in ("ascii", "us-ascii", "utf-8", "utf8"):
+        if enc in ("utf-8", "utf8"):
+            return mkseq("bytes", utf8_encode_items(self.items, errors))
+        if enc in ("ascii", "us-ascii"):
             eng = core.cur()
+            out = []
             for i, it in enumerate(self.items):
                 ok = (it < 128) if isinstance(it, int) else eng.branch(it < 128)
-                if not ok:
-                    if enc in ("ascii", "us-ascii") and errors == "strict":
-                        raise UnicodeEncodeError("ascii", "?", i, i + 1, "ordinal not in range(128)")
-                    eng.unsupported("encode(%s) of non-ASCII symbolic str" % encoding)
-            return mkseq("bytes", self.items)
+                if ok:
+                    out.append(it)
+                elif errors == "surrogateescape" and _t(eng, _rng(it, 0xDC80, 0xDCFF)):
+                    out.append(it - 0xDC00)
+                elif errors == "replace":
+                    out.append(63)
+                elif errors == "ignore":
+                    pass
+                else:
+                    raise UnicodeEncodeError("ascii", "?", i, i + 1, "ordinal not in range(128)")
+            return mkseq("bytes", out)
         if enc in ("latin-1", "latin1", "iso-8859-1"):
             eng = core.cur()
             for i, it in enumerate(self.items):
@@ -941,6 +961,134 @@ class SymStr(SymSeq):
                     raise UnicodeEncodeError("latin-1", "?", i, i + 1, "ordinal not in range(256)")
             return mkseq("bytes", self.items)
         core.cur().unsupported("encode(%s)" % encoding)
+
+
+# ---------------------------------------------------------------- UTF-8 codec
+def _t(eng, c):
+    return c if isinstance(c, bool) else eng.branch(c)
+
+
+def _rng(x, lo, hi):
+    if isinstance(x, int):
+        return lo <= x <= hi
+    return z3.And(x >= lo, x <= hi)
+
+
+def utf8_decode_items(items, errors="strict"):
+    """bytes items -> code point items, forking on the class of every lead byte (CPython's decoder rules)."""
+    eng = core.cur()
+    if errors not in ("strict", "surrogateescape", "replace", "ignore"):
+        eng.unsupported("utf-8 decode with errors=%r" % (errors,))
+    out = []
+    n = len(items)
+    i = 0
+
+    def invalid(start, k, reason):
+        if errors == "strict":
+            raise UnicodeDecodeError("utf-8", b"?", start, start + k, reason)
+        if errors == "surrogateescape":
+            for j in range(start, start + k):
+                out.append(items[j] + 0xDC00)
+        elif errors == "replace":
+            out.append(0xFFFD)
+        return start + k
+
+    def cont(j):
+        return j < n and _t(eng, _rng(items[j], 0x80, 0xBF))
+
+    while i < n:
+        b0 = items[i]
+        if _t(eng, _rng(b0, 0, 0x7F)):
+            out.append(b0)
+            i += 1
+        elif _t(eng, _rng(b0, 0xC2, 0xDF)):
+            if cont(i + 1):
+                out.append((b0 - 0xC0) * 64 + (items[i + 1] - 0x80))
+                i += 2
+            else:
+                i = invalid(i, 1, "invalid continuation byte" if i + 1 < n else "unexpected end of data")
+        elif _t(eng, _rng(b0, 0xE0, 0xEF)):
+            ok2 = False
+            if i + 1 < n:
+                b1 = items[i + 1]
+                if isinstance(b0, int) and isinstance(b1, int):
+                    c2 = 0x80 <= b1 <= 0xBF and not (b0 == 0xE0 and b1 < 0xA0) and not (b0 == 0xED and b1 > 0x9F)
+                else:
+                    c2 = z3.And(_z(b1) >= 0x80, _z(b1) <= 0xBF, z3.Implies(_z(b0) == 0xE0, _z(b1) >= 0xA0),
+                                z3.Implies(_z(b0) == 0xED, _z(b1) <= 0x9F))
+                ok2 = _t(eng, c2)
+            if not ok2:
+                i = invalid(i, 1, "invalid continuation byte" if i + 1 < n else "unexpected end of data")
+            elif cont(i + 2):
+                out.append(((b0 - 0xE0) * 64 + (items[i + 1] - 0x80)) * 64 + (items[i + 2] - 0x80))
+                i += 3
+            else:
+                i = invalid(i, 2, "invalid continuation byte" if i + 2 < n else "unexpected end of data")
+        elif _t(eng, _rng(b0, 0xF0, 0xF4)):
+            ok2 = False
+            if i + 1 < n:
+                b1 = items[i + 1]
+                if isinstance(b0, int) and isinstance(b1, int):
+                    c2 = 0x80 <= b1 <= 0xBF and not (b0 == 0xF0 and b1 < 0x90) and not (b0 == 0xF4 and b1 > 0x8F)
+                else:
+                    c2 = z3.And(_z(b1) >= 0x80, _z(b1) <= 0xBF, z3.Implies(_z(b0) == 0xF0, _z(b1) >= 0x90),
+                                z3.Implies(_z(b0) == 0xF4, _z(b1) <= 0x8F))
+                ok2 = _t(eng, c2)
+            if not ok2:
+                i = invalid(i, 1, "invalid continuation byte" if i + 1 < n else "unexpected end of data")
+            elif not cont(i + 2):
+                i = invalid(i, 2, "invalid continuation byte" if i + 2 < n else "unexpected end of data")
+            elif not cont(i + 3):
+                i = invalid(i, 3, "invalid continuation byte" if i + 3 < n else "unexpected end of data")
+            else:
+                out.append((((b0 - 0xF0) * 64 + (items[i + 1] - 0x80)) * 64 + (items[i + 2] - 0x80)) * 64 +
+                           (items[i + 3] - 0x80))
+                i += 4
+        else:
+            i = invalid(i, 1, "invalid start byte")
+    return out
+
+
+def _z(x):
+    return z3.IntVal(x) if isinstance(x, int) else x
+
+
+def utf8_encode_items(items, errors="strict"):
+    """code point items -> utf-8 byte items, forking on the size class of every character."""
+    eng = core.cur()
+    if errors not in ("strict", "surrogateescape", "replace", "ignore", "surrogatepass"):
+        eng.unsupported("utf-8 encode with errors=%r" % (errors,))
+    out = []
+    for i, c in enumerate(items):
+        if _t(eng, _rng(c, 0, 0x7F)):
+            out.append(c)
+        elif _t(eng, _rng(c, 0x80, 0x7FF)):
+            out += [0xC0 + c / 64, 0x80 + c % 64] if not isinstance(c, int) else [0xC0 + c // 64, 0x80 + c % 64]
+        elif _t(eng, _rng(c, 0xD800, 0xDFFF)):
+            if errors == "surrogateescape" and _t(eng, _rng(c, 0xDC80, 0xDCFF)):
+                out.append(c - 0xDC00)
+            elif errors == "replace":
+                out.append(63)
+            elif errors == "ignore":
+                pass
+            elif errors == "surrogatepass":
+                out += _enc3(c)
+            else:
+                raise UnicodeEncodeError("utf-8", "?", i, i + 1, "surrogates not allowed")
+        elif _t(eng, _rng(c, 0x800, 0xFFFF)):
+            out += _enc3(c)
+        else:
+            if isinstance(c, int):
+                out += [0xF0 + c // 262144, 0x80 + (c // 4096) % 64, 0x80 + (c // 64) % 64, 0x80 + c % 64]
+            else:
+                out += [0xF0 + c / 262144, 0x80 + (c / 4096) % 64, 0x80 + (c / 64) % 64, 0x80 + c % 64]
+    return out
+
+
+def _enc3(c):
+    if isinstance(c, int):
+        return [0xE0 + c // 4096, 0x80 + (c // 64) % 64, 0x80 + c % 64]
+    return [0xE0 + c / 4096, 0x80 + (c / 64) % 64, 0x80 + c % 64]
 
 
 # ---------------------------------------------------------------- int <-> text
